@@ -684,7 +684,7 @@ fn table_guided(rng: &mut Rng, a: &Alphabet, samples: &[String]) -> Vec<Vec<u8>>
 
 /// `large` lane: a table beyond 2^16 entries: all two-symbol strings over 40 ascii symbols, then
 /// random concatenations of two of them up to 65 300 - 70 000 entries
-fn table_huge(rng: &mut Rng) -> (Alphabet, Vec<Vec<u8>>) {
+pub fn table_huge(rng: &mut Rng) -> (Alphabet, Vec<Vec<u8>>) {
     let syms: Vec<u8> = (b'a'..=b'z').chain(b'0'..=b'9').chain(*b"+-*/").collect();
     let mut entries: Vec<Vec<u8>> = vec![];
     for x in &syms {
